@@ -62,7 +62,8 @@ CHECKS = {
                 "simulation above, independent first-clash / cycle / undefined detector).",
         "design_ref": "DESIGN.md 2/C12",
         "note": "Trusted: Coq kernel; std++ gmap (axiom-free); extraction; hand model of aig.rs with hash maps as finite maps and "
-                "usize codes as unbounded N, validated differentially each run. Defect D10 (latch state clash not reported, "
+                "usize codes as unbounded N, validated differentially each run; for the narrower literal types the truncating from_code cast is "
+                "proved unreachable on every run that returns a circuit (C12_result_codes_fit_the_literal_type). Defect D10 (latch state clash not reported, "
                 "constant-false output renumbered to a latch) was found by this check and fixed in /repo (3b322e7).",
         "technique": "Coq proof (step invariants of the stack machine, orbit/pigeonhole argument and potential for termination) + "
                      "model/implementation correspondence",
